@@ -35,8 +35,10 @@ if REPO != "/repo":
     OUTROOT = _alt
 COQFLAGS = ["-Q", "base", "TT", "-Q", "model", "TT", "-Q", "proof", "TT", "-Q", "prop", "TT",
             "-Q", "gen", "TT"]
-GATE_RE = (r"Admitted|\badmit\b|\bAxiom\b|\bParameter\b|\bConjecture\b|Unset Guard|bypass_check|"
-           r"type-in-type|impredicative-set|Admit Obligations|Unset Positivity|Unset Universe")
+GATE_RE = (r"^\s*(?:(?:Local|Global|Polymorphic|Monomorphic|#\[[^\]]*\])\s+)*"
+           r"(?:Axiom|Axioms|Parameter|Parameters|Conjecture|Conjectures|Admit Obligations)\b"
+           r"|\bAdmitted\b|\badmit\b|Unset Guard|bypass_check|type-in-type|impredicative-set|"
+           r"Unset Positivity|Unset Universe|Guard Checking|Positivity Checking|Universe Checking")
 
 
 def log(msg):
